@@ -119,6 +119,13 @@ func finish(L *Loaded, runs []*HarnessRun, cfg *RunCfg, prop, evidencePath, repl
 			replayMismatch += len(bad)
 			for _, b := range bad {
 				broken = true
+				for wl2, w := range r.Witnesses {
+					if strings.HasPrefix(b, wl2+":") {
+						os.MkdirAll(replayDir, 0o755)
+						wb, _ := json.MarshalIndent(map[string]interface{}{"harness": r.Name, "label": wl2, "kind": "witness", "model": w.Model}, "", " ")
+						os.WriteFile(filepath.Join(replayDir, fmt.Sprintf("witness-%s-%s.json", r.Name, sanitizeName(wl2))), wb, 0o644)
+					}
+				}
 				lines = append(lines, fmt.Sprintf("ENCODING-MISMATCH harness=%s witness=%s", r.Name, b))
 			}
 		}
